@@ -2,6 +2,7 @@ import ObiVerif.Model.Writer
 import ObiVerif.Model.WriterFmt
 import ObiVerif.Model.CsvRead
 import ObiVerif.Model.JsonRead
+import ObiVerif.Model.WriterWfile
 import ObiVerif.Driver.Util
 /-! line protocol for C04 (see `harness/c04.go`):
 
@@ -14,9 +15,18 @@ writer); the result then ends with ` out2=<hex of the second file>`.  JSON: the 
 canonical text (`Json.encVal`) of the value the reader model `JsonRead.decodeText` decodes from the whole file
 (`dec=error` when it rejects it) — the harness prints the same from what `encoding/json` decodes.
 
+Generator tokens read by the model: `z=1` / `p=1` / `ap=<n>` / `cmd=1` (no `wr=` section then), `au=1` (CSV column
+detection `obicsv --auto`: the columns are detected on the first chunk listed = the first batch delivered), `cmd=1` (paired
+output through `obiconvert.CLIWriteBioSequences`: `--skip-empty` is not handed to a paired writer, `cliSkipEmpty`).
+For a plain, unpaired output written to the in-memory sink the result ends with ` wr=<n>,<n>,…`: the sizes of the `Write`
+calls the output received; the model runs the writers at the level of `Wfile` (`WriterWfile.fileCalls`: formatters →
+re-sequencing → `bufio.Writer` of 4096 bytes → recording file), `out=` is the concatenation of these calls
+(= `writeFile`, theorem `Props.C04.file_calls_concat`).
+
 Old form (still accepted): `<writer> w=<workers> <order>:<nseq>:<hex text> …` — chunk texts as data. -/
+set_option Elab.async false
 namespace ObiVerif.Driver.C04
-open ObiVerif.Writer ObiVerif.Driver ObiVerif.WriterFmt
+open ObiVerif.Writer ObiVerif.Driver ObiVerif.WriterFmt ObiVerif.WriterWfile
 
 def parseChunk (s : String) : Option (Nat × Bytes) :=
   match s.splitOn ":" with
@@ -134,17 +144,27 @@ def parseCfg (w : String) (opts : List String) : Option Cfg := do
 def showRows (rows : List (List B)) : String :=
   if rows.isEmpty then "~" else "/".intercalate (rows.map fun r => ",".intercalate (r.map hex))
 
-def runNew (w : String) (model : List String) : String :=
+def runNew (w : String) (gen : List String) (model : List String) : String :=
+  let flag := fun (k : String) => gen.contains (k ++ "=1")
+  let noWr := flag "z" || flag "p" || flag "cmd" || gen.any (fun t => t.startsWith "ap=" && t != "ap=0")
   let opts := model.takeWhile (· ≠ "C")
   let afterC := (model.dropWhile (· ≠ "C")).drop 1
   let chunks := afterC.takeWhile (· ≠ "P")
   let paired := afterC.contains "P"
   let mates := (afterC.dropWhile (· ≠ "P")).drop 1
   match parseCfg w opts, chunks.mapM parseBatch, mates.mapM parseBatch with
-  | some cfg, some arr, some arr2 =>
-    match writeFile cfg arr, (if paired then writeFile cfg arr2 else some []) with
-    | some out, some out2 =>
-      let tail := if paired then s!" out2={hex out2}" else ""
+  | some cfg0, some arr, some arr2 =>
+    -- `obicsv --auto`: columns detected on the first batch delivered; command level: `--skip-empty` and paired output
+    let cfg1 := if flag "au" && cfg0.kind = Kind.csv then (match arr with | a :: _ => autoCfg cfg0 a.2 | [] => cfg0) else cfg0
+    let cfg := if flag "cmd" then { cfg1 with skipEmpty := cliSkipEmpty paired cfg1.skipEmpty } else cfg1
+    -- plain unpaired output: the model is run at the level of `Wfile` and prints the `Write` calls the output receives
+    let file : Option (B × String) :=
+      if noWr then (writeFile cfg arr).map (fun o => (o, ""))
+      else (fileCalls cfg bufSize arr).map (fun calls =>
+        (calls.flatten, " wr=" ++ (if calls.isEmpty then "~" else ",".intercalate (calls.map fun c => toString c.length))))
+    match file, (if paired then writeFile cfg arr2 else some []) with
+    | some (out, wr), some out2 =>
+      let tail := (if paired then s!" out2={hex out2}" else "") ++ wr
       if cfg.kind = Kind.csv then
         -- the reader model on the writer's output (compared with encoding/csv's Reader by the harness)
         let rd := match CsvRead.parse out with
@@ -164,7 +184,7 @@ def runNew (w : String) (model : List String) : String :=
 def run (line : String) : String :=
   match words line with
   | w :: rest =>
-    if rest.contains "|" then runNew w ((rest.dropWhile (· ≠ "|")).drop 1)
+    if rest.contains "|" then runNew w (rest.takeWhile (· ≠ "|")) ((rest.dropWhile (· ≠ "|")).drop 1)
     else match rest with
       | _ :: chunks => runOld w chunks
       | [] => "bad-op"
